@@ -563,3 +563,31 @@ Lemma no_livelock_after_fix :
   exists d s, seekable_decompress ex_H sf_content 131072 16 sf_t true rinit (repeat 0 32) 32 0 (repeat (16, true) 40)
               = RErr sk_E_corruption_detected d s.
 Proof. eexists. eexists. vm_compute. reflexivity. Qed.
+
+(* ---- a failed seek in the restart branch (finding 'seek-failure-stale-cache') ----
+   the example archive without checksums: read byte 3 (frame 2), then a read at offset 0 whose seek fails, then the
+   same read again.  With the cache assigned before the seek (the code as it is) the model returns success with byte
+   x[4] = 50 where x[0] = 10 belongs; when a failed seek leaves the state alone the invariant is kept and the retry
+   returns the right byte. *)
+Definition ex_t0 : seek_table := mkT (t_entries ex_t) (t_len ex_t) false.
+Lemma ex_t0_wf : wf_table ex_t0.
+Proof. destruct ex_wf as [A B C E F]. constructor; assumption. Qed.
+Definition after_first_read : rstate :=
+  match seekable_decompress ex_H ex_content 4 16 ex_t0 true rinit [0] 1 3 (repeat (1, true) 8) with
+  | ROk _ _ st => st
+  | _ => rinit
+  end.
+Lemma stale_cache_wrong_data :
+  exists st', seekable_decompress ex_H ex_content 4 16 ex_t0 true
+                (restart_seek_failed ex_t0 true after_first_read 0) [0] 1 0 (repeat (1, true) 8) = ROk 1 [50] st'
+              /\ sliceN ex_x 0 1 = [10].
+Proof. eexists. split; vm_compute; reflexivity. Qed.
+Lemma failed_seek_keeps_invariant content t st target : wf_table t ->
+  Inv content t (restart_seek_failed t false st target).
+Proof.
+  intros W. right. right. right. cbn [restart_seek_failed r_cur]. pose proof (wf_small t W). lia.
+Qed.
+Lemma retry_after_clean_failure :
+  exists st', seekable_decompress ex_H ex_content 4 16 ex_t0 true
+                (restart_seek_failed ex_t0 false after_first_read 0) [0] 1 0 (repeat (1, true) 8) = ROk 1 [10] st'.
+Proof. eexists. vm_compute. reflexivity. Qed.
